@@ -54,7 +54,18 @@ R5  PTF -> records -> table.  build_performance_table: every generated row gives
     each column (as named by the column list returned with the rows) a value of
     that column's role, the mass-dependent ones of the mass the row is for; one
     row per mass level the phase record has data for; every record field is
-    emitted.  PTFData.load: each record field is one number of the row times the
+    emitted; every record gets its rows (the guards / comprehension filters a
+    row is generated under, evaluated on sample records of flight level 0 / 340
+    / 510: a truthiness test drops level 0).  The rows are the elements of the
+    returned sequence, however it is written: displays appended / extended into
+    an accumulator inside statement loops, or displays, concatenations, *parts,
+    itertools.chain / sum(.., []) and comprehensions / generator expressions
+    with any number of generators -- a generator over a literal table (of mass
+    levels, of (mass, value) pairs, of whole rows) is unrolled like the
+    statement loop, one over a record list stands for any record, helper calls
+    are inlined, getattr / zip / enumerate over literals folded.  A sequence
+    that is not followed, a row per combination of two record lists and a
+    filter that cannot be evaluated are UNDECIDED.  PTFData.load: each record field is one number of the row times the
     factor its unit demands (algebra over units.py), descent ROCD negated, and
     that number is the one at its own position of its own block (evaluated on
     sample rows, which also checks the number pattern); a well-formed row at
@@ -3222,7 +3233,8 @@ def _phase_of_record(prog, pt, ptf_cls):
 def rule_ptf(ctx):
     """R5.  (a) build_performance_table: every generated row gives each column (as named by the column list that is
     returned with the rows) a value of that column's role, the mass-dependent columns of the mass the row is for;
-    every number of a phase record is emitted, no mass twice.  (b) PTFData.load: each record field is the number at
+    every number of a phase record is emitted, no mass twice, no record left out (conditions a row is generated under
+    evaluated on sample records).  The rows are the elements of the returned sequence (`_elements`).  (b) PTFData.load: each record field is the number at
     its own position of its own block, converted with the factor its unit demands (algebra over units.py), descent
     ROCD negated; a well-formed row -- including flight level 0 -- reaches all three record constructors."""
     prog = ctx.prog
@@ -3238,11 +3250,11 @@ def rule_ptf(ctx):
     if set(rec_fields) != set(PTF_BLOCKS):
         ctx.undecided('C06-R5', (pt.relpath, 'PTFData'), f'phases {sorted(rec_fields)}', 'phase record lists of PTFData not recognised')
     consts = _units_consts(prog)
-    _rule_ptf_table(ctx, bt, rec_fields)
+    _rule_ptf_table(ctx, bt, rec_fields, consts)
     _rule_ptf_load(ctx, pt, ptf_cls, phase_of, consts)
 
 
-def _rule_ptf_table(ctx, bt, rec_fields):
+def _rule_ptf_table(ctx, bt, rec_fields, consts):
     prog = ctx.prog
     eng = Engine(prog)
     ptf_p = bt.params[0] if bt.params else 'ptf'
@@ -3275,30 +3287,35 @@ def _rule_ptf_table(ctx, bt, rec_fields):
            f'the generated table does not have exactly the columns {need}', nontrivial=False)
     if not ok:
         return
-    # rows: list displays appended / extended into the accumulator that is returned, or a literal / comprehension
-    rows = {}       # canon -> (phase iter, elements, line, loop tags)
+    # rows: list displays appended / extended into the accumulator that is returned, or the elements of the returned
+    # expression itself (displays, concatenations, comprehensions: _elements)
+    rows = {}       # key -> (row display, loop tags, line, accumulator | None, conditions the row is generated under)
+    fr0 = Fr(bt, None, None, ())
 
-    def add_row(r, loops, line):
-        if isinstance(r, (ast.List, ast.Tuple)):
-            rows.setdefault(canon(r), (r, loops, line))
-            return True
-        return False
+    def templates(e, what):
+        try:
+            return _elements(eng, fr0, e)
+        except _RowForm as ex:
+            ctx.undecided('C06-R5', bt, canon(ex.node)[:80], f'{what}: {ex.why}')
+
+    def add_rows(ts, nme, line, pc=()):
+        """the templates of one expansion; a template repeated inside one expansion is a row generated twice"""
+        seen = {}
+        for r, loops, conds in ts:
+            if not isinstance(r, (ast.List, ast.Tuple)):
+                ctx.undecided('C06-R5', bt, canon(r)[:80], 'row is not a literal list')
+            k = canon(r) + ('@' + nme if nme else '')
+            seen[k] = seen.get(k, 0) + 1
+            rows.setdefault(k + (f'#{seen[k]}' if seen[k] > 1 else ''), (r, loops, getattr(r, 'lineno', 0) or line, nme, tuple(pc) + tuple(conds)))
     acc_names = set()
+    opaque = []
+    unread = set()      # lists that received something this recogniser does not read as rows
     for dv, st in datas:
-        core = dv
-        while isinstance(core, ast.Call) and canon(core.func) in ('sorted', 'list', 'tuple') and core.args:
-            core = core.args[0]
-        if is_sym(core, '_acc'):
-            acc_names.add(core.args[0].value)
-        elif isinstance(core, ast.List):
-            for r in core.elts:
-                if not add_row(r, (), getattr(dv, 'lineno', bt.node.lineno)):
-                    ctx.undecided('C06-R5', bt, canon(r)[:80], 'row is not a literal list')
-        elif isinstance(core, (ast.ListComp, ast.BinOp)):
-            acc_names |= {n.args[0].value for n in ast.walk(core) if is_sym(n, '_acc')}
-            _rows_of_comprehension(ctx, bt, core, add_row)
-        else:
+        ts = templates(dv, 'returned rows')
+        if ts is None:
             ctx.undecided('C06-R5', bt, canon(dv)[:80], 'the data rows that are returned are not the accumulated rows')
+        acc_names |= {n.args[0].value for n in ast.walk(dv) if is_sym(n, '_acc')}
+        add_rows(ts, None, getattr(dv, 'lineno', 0) or bt.node.lineno)
         for e in st.events:
             if e.kind == 'call' and e.name in ('.append', '.extend') and isinstance(e.node.func, ast.Attribute) \
                     and isinstance(e.node.func.value, ast.Name) and e.args:
@@ -3306,19 +3323,31 @@ def _rule_ptf_table(ctx, bt, rec_fields):
                 loops = tuple(t for t, _ in e.loops)
                 if e.name == '.append':
                     if isinstance(e.args[0], (ast.List, ast.Tuple)):
-                        rows.setdefault(canon(e.args[0]) + '@' + nme, (e.args[0], loops, e.line, nme))
-                elif isinstance(e.args[0], (ast.List, ast.Tuple)):
-                    for r in e.args[0].elts:
-                        if isinstance(r, (ast.List, ast.Tuple)):
-                            rows.setdefault(canon(r) + '@' + nme, (r, loops, e.line, nme))
-                elif isinstance(e.args[0], ast.ListComp):
-                    _rows_of_comprehension(ctx, bt, e.args[0], lambda r, lp, ln, nme=nme: (
-                        rows.setdefault(canon(r) + '@' + nme, (r, lp, ln, nme)), isinstance(r, (ast.List, ast.Tuple)))[1])
-    rows = {k: v for k, v in rows.items() if len(v) < 4 or v[3] in acc_names or not acc_names}
-    ctx.floor('C06-R5', len(rows), 7, 'generated table rows')
+                        rows.setdefault(canon(e.args[0]) + '@' + nme, (e.args[0], loops, e.line, nme, tuple(e.pc)))
+                    else:
+                        unread.add(nme)
+                else:
+                    ts = templates(e.args[0], f'rows added to {nme}')
+                    if ts is None:
+                        opaque.append((nme, e))
+                    else:
+                        add_rows([(r, loops + lp, cs) for r, lp, cs in ts], nme, e.line, e.pc)
+            elif e.kind == 'call' and e.name == '.insert' and isinstance(e.node.func, ast.Attribute) \
+                    and isinstance(e.node.func.value, ast.Name):
+                unread.add(e.node.func.value.id)
+    for nme, e in opaque:
+        if nme in acc_names:
+            ctx.undecided('C06-R5', bt, canon(e.value)[:80], f'rows added to {nme} are not given as displays or comprehensions')
+    unread |= {v[3] for v in rows.values() if v[3] is not None and acc_names and v[3] not in acc_names}
+    rows = {k: v for k, v in rows.items() if v[3] is None or v[3] in acc_names or not acc_names}
+    # instance floor.  When every addition to every list of the function was read as rows, the rows found are all the
+    # rows there are and the obligations below speak for themselves (a phase or mass level without rows is a
+    # violation); otherwise fewer rows than the seven of the table layout may mean an idiom that was not followed
+    ctx.floor('C06-R5', len(rows), 7 if unread or len(rows) >= 7 else 1, 'generated table rows')
+    samples = _sample_records(consts)
     masses_per_phase = {}
     used_fields = {}
-    for r, loops, line, *_ in rows.values():
+    for r, loops, line, _nme, conds in rows.values():
         elts = list(r.elts)
         # the phase is that of the record list the row's record comes from
         rec = next((n for x in elts for n in ast.walk(x) if is_sym(n, '_each')), None)
@@ -3331,6 +3360,41 @@ def _rule_ptf_table(ctx, bt, rec_fields):
                 phase = src.attr
         if phase not in rec_fields:
             ctx.undecided('C06-R5', bt, canon(r)[:80], 'row does not come from one of the phase record lists of the PTF data')
+        if len(set(loops)) > 1:
+            ctx.undecided('C06-R5', bt, canon(r)[:80], f'row generated once per combination of the elements of {sorted(set(loops))}')
+        # every record of the phase gets its rows: the conditions the row is generated under (guards on the path,
+        # filters of the comprehension) that read the record are evaluated on the sample records
+        rect = canon(rec)
+        dropped = None
+        for cond, pol in conds:
+            is_filter = is_sym(cond, '_filter')
+            if is_filter:
+                cond = cond.args[0]
+            if is_sym(cond, '_in_loop') or not any(is_sym(n, '_each') and canon(n) == rect for n in ast.walk(cond)):
+                if is_filter:
+                    ctx.undecided('C06-R5', bt, canon(cond)[:80], f'filter of a comprehension of {phase} rows that does not read the record')
+                continue
+            for smp in samples[phase]:
+                def atom(n, smp=smp):
+                    if isinstance(n, ast.Attribute) and is_sym(n.value, '_each') and canon(n.value) == rect and n.attr in smp:
+                        return smp[n.attr]
+                    return NotImplemented
+                try:
+                    val = bool(ceval(cond, {}, atom))
+                except Unknown as ex:
+                    ctx.undecided('C06-R5', bt, canon(cond).replace(rect, 'r')[:80],
+                                  f'condition under which a {phase} row is generated cannot be evaluated on a sample record ({ex})')
+                except Exception:
+                    val = None
+                if val is not pol:
+                    dropped = dropped or (cond, pol, smp['fl'])
+        if dropped is not None:
+            c0 = dropped[0].operand if isinstance(dropped[0], ast.UnaryOp) and isinstance(dropped[0].op, ast.Not) else dropped[0]
+            bare_fl = isinstance(c0, ast.Attribute) and c0.attr == 'fl'
+            ctx.ob('C06-R5', bt, f'{phase} rows for every record', False,
+                   f'the {phase} record of flight level {dropped[2]} gets no row: rows are only generated when '
+                   f'`{canon(dropped[0]).replace(rect, "r")[:80]}` is {"true" if dropped[1] else "false"}'
+                   + (' (a truthiness test on the flight level drops level 0)' if dropped[2] == 0 and bare_fl else ''), line=line)
         if len(elts) != len(colnames):
             ctx.ob('C06-R5', bt, f'{phase} row has {len(elts)} entries', False,
                    f'row length differs from the column list ({len(colnames)} columns)', line=line)
@@ -3395,41 +3459,193 @@ def _rule_ptf_table(ctx, bt, rec_fields):
                f'{unused} of the {ph} record never reach the generated table', nontrivial=False)
 
 
-def _rows_of_comprehension(ctx, bt, core, add_row):
-    """rows written as [[...] for r in ptf.phase] (+ ...): the element with the loop variable made an `_each`"""
-    parts = []
+class _RowForm(Exception):
+    """a way of writing a sequence of rows that `_elements` does not follow"""
 
-    def split(x):
-        if isinstance(x, ast.BinOp) and isinstance(x.op, ast.Add):
-            split(x.left)
-            split(x.right)
-        else:
-            parts.append(x)
-    split(core)
-    for c in parts:
-        if isinstance(c, ast.List):
-            for r in c.elts:
-                add_row(r, (), getattr(c, 'lineno', 0))
-            continue
-        if is_sym(c, '_acc'):
-            continue            # its rows are the append / extend events of that accumulator
-        if not (isinstance(c, ast.ListComp) and len(c.generators) >= 1 and isinstance(c.generators[0].target, ast.Name)
-                and not c.generators[0].ifs):
-            ctx.undecided('C06-R5', bt, canon(c)[:80], 'row source not recognised')
-        g = c.generators[0]
-        each = _call('_each', g.iter)
+    def __init__(self, node, why):
+        super().__init__(why)
+        self.node, self.why = node, why
 
-        class S(ast.NodeTransformer):
-            def visit_Name(self, n):
-                return clone(each) if n.id == g.target.id else n
-        elt = S().visit(clone(c.elt))
-        if len(c.generators) == 1:
-            if isinstance(elt, (ast.List, ast.Tuple)) and elt.elts and all(isinstance(x, (ast.List, ast.Tuple)) for x in elt.elts) and False:
-                pass
-            if not add_row(elt, (canon(g.iter),), getattr(c, 'lineno', 0)):
-                ctx.undecided('C06-R5', bt, canon(elt)[:80], 'row is not a literal list')
+
+def _subst_names(e, env):
+    """copy of e with the free names that env binds replaced by (copies of) their values; names rebound by a lambda or
+    a comprehension inside e are left alone there"""
+    class T(ast.NodeTransformer):
+        def __init__(self, hidden=frozenset()):
+            self.hidden = hidden
+
+        def visit_Name(self, n):
+            if isinstance(n.ctx, ast.Load) and n.id in env and n.id not in self.hidden:
+                return clone(env[n.id])
+            return n
+
+        def visit_Lambda(self, n):
+            a = n.args
+            names = {x.arg for x in a.posonlyargs + a.args + a.kwonlyargs} | \
+                ({a.vararg.arg} if a.vararg else set()) | ({a.kwarg.arg} if a.kwarg else set())
+            return T(self.hidden | names).generic_visit(n)
+
+        def _comp(self, n):
+            names = {x for g in n.generators for x in assigned_names(g.target)}
+            return T(self.hidden | names).generic_visit(n)
+        visit_ListComp = visit_SetComp = visit_GeneratorExp = visit_DictComp = _comp
+    return T().visit(clone(e))
+
+
+def _bind_element(t, v, env):
+    """bind the target t of a generator to the element v (an expression)"""
+    if isinstance(t, ast.Name):
+        env[t.id] = v
+    elif isinstance(t, (ast.Tuple, ast.List)) and not any(isinstance(x, ast.Starred) for x in t.elts):
+        if isinstance(v, (ast.Tuple, ast.List)) and not any(isinstance(x, ast.Starred) for x in v.elts):
+            if len(v.elts) != len(t.elts):
+                raise _RowForm(v, f'element does not unpack into {len(t.elts)} names')
+            for a, b in zip(t.elts, v.elts):
+                _bind_element(a, b, env)
+        elif isinstance(v, (ast.Constant, ast.Dict, ast.Set, ast.ListComp, ast.GeneratorExp, ast.Lambda)):
+            raise _RowForm(v, 'element cannot be unpacked')
         else:
-            ctx.undecided('C06-R5', bt, canon(c)[:80], 'nested comprehension of rows')
+            for i, a in enumerate(t.elts):
+                _bind_element(a, ast.Subscript(value=v, slice=_const(i), ctx=ast.Load()), env)
+    else:
+        raise _RowForm(t, 'generator target not followed')
+
+
+_SAME_ELEMENTS = ('list', 'tuple', 'sorted', 'reversed', 'iter')      # wrappers that keep the elements of a sequence
+
+
+def _inlined(eng, fr, e):
+    """e with the calls of repository functions it contains replaced by what they return (the engine inlines them),
+    when that is one value on one path; e itself otherwise"""
+    try:
+        if not any(isinstance(n, ast.Call) and not (isinstance(n.func, ast.Name) and n.func.id in ('_each', '_index', '_acc'))
+                   and eng.resolve(fr, n) is not None for n in ast.walk(e)):
+            return e
+        outs = eng.ev(clone(e), St(), fr, [])
+    except (Undecided, AnalysisError, RecursionError):
+        return e
+    if len(outs) == 1 and isinstance(outs[0][0], ast.expr):
+        return simp_deep(clone(outs[0][0]))
+    return e
+
+
+def _elements(eng, fr, e, env=None, depth=0):
+    """The elements of the sequence-valued expression e as *templates* [(element, loops, conditions)], or None when e
+    is an opaque collection.  Followed: displays (with *parts), a + b, list / tuple / sorted / reversed / iter of a
+    sequence, itertools.chain(a, b, ...), chain.from_iterable(s) and sum(s, []), module-level literal tables, and
+    list comprehensions / generator expressions with any number of generators: the generators are taken left to
+    right; one over a sequence whose elements are known is unrolled (its target bound to each element in turn, tuple
+    targets unpacked against tuple elements), one over an opaque collection c binds its target to `_each(c)` -- the
+    engine's "any element of c" -- and adds c to the template's loops; a filter that folds to a constant is decided,
+    any other filter becomes a condition of the template.  Every bound name is substituted and the result folded
+    (getattr(x, 'a' + 'b'), zip / enumerate of displays, ...), so a template reads like the argument of the
+    corresponding `.append` inside statement loops.  Raises _RowForm for a form that is not followed."""
+    if depth > 16:
+        raise _RowForm(e, 'sequence expression nested too deeply')
+    if env:
+        e = _subst_names(e, env)
+    e = simp_deep(clone(e))
+    while isinstance(e, ast.Call) and isinstance(e.func, ast.Name) and e.func.id in _SAME_ELEMENTS and e.args \
+            and not any(isinstance(a, ast.Starred) for a in e.args):
+        e = e.args[0]
+    if is_sym(e, '_acc'):
+        return []               # what was put into an accumulator is in the append / extend events of its name
+    if isinstance(e, (ast.Name, ast.Attribute)):
+        t = eng.const_table(e, fr)
+        if t is e or not isinstance(t, (ast.Tuple, ast.List, ast.Set)):
+            return None
+        e = t
+    if isinstance(e, (ast.List, ast.Tuple, ast.Set)):
+        out = []
+        for x in e.elts:
+            if isinstance(x, ast.Starred):
+                sub = _elements(eng, fr, x.value, None, depth + 1)
+                if sub is None:
+                    return None
+                out += sub
+            else:
+                out.append((x, (), ()))
+        return out
+    if isinstance(e, ast.BinOp) and isinstance(e.op, ast.Add):
+        l = _elements(eng, fr, e.left, None, depth + 1)
+        r = _elements(eng, fr, e.right, None, depth + 1)
+        return None if l is None or r is None else l + r
+    if isinstance(e, ast.Call) and not e.keywords and not any(isinstance(a, ast.Starred) for a in e.args):
+        ext = eng.ext_name(fr, e.func) if isinstance(e.func, (ast.Name, ast.Attribute)) else None
+        flat = None
+        if ext == 'itertools.chain':
+            flat = [(a, (), ()) for a in e.args]
+        elif ext == 'itertools.chain.from_iterable' and len(e.args) == 1:
+            flat = _elements(eng, fr, e.args[0], None, depth + 1)
+        elif ext == 'sum' and len(e.args) == 2 and isinstance(e.args[1], (ast.List, ast.Tuple)) and not e.args[1].elts:
+            flat = _elements(eng, fr, e.args[0], None, depth + 1)
+        if flat is None:
+            return None
+        out = []
+        for part, loops, conds in flat:
+            sub = _elements(eng, fr, part, None, depth + 1)
+            if sub is None:
+                return None
+            out += [(x, loops + lp, conds + cs) for x, lp, cs in sub]
+        return out
+    if isinstance(e, (ast.ListComp, ast.GeneratorExp)):
+        ctxs = [({}, (), ())]
+        for g in e.generators:
+            if g.is_async:
+                raise _RowForm(e, 'asynchronous generator')
+            nxt = []
+            for env1, loops, conds in ctxs:
+                it = _inlined(eng, fr, simp_deep(_subst_names(g.iter, env1)))
+                if any(is_sym(n, '_acc') for n in ast.walk(it)):
+                    raise _RowForm(it, 'the accumulated rows are generated again by a comprehension')
+                elems = _elements(eng, fr, it, None, depth + 1)
+                if elems is None:
+                    core = it
+                    while isinstance(core, ast.Call) and isinstance(core.func, ast.Name) and core.func.id in _SAME_ELEMENTS \
+                            and len(core.args) == 1:
+                        core = core.args[0]
+                    if isinstance(core, ast.Call) and canon(core.func) == 'enumerate' and core.args and not core.keywords \
+                            and isinstance(g.target, (ast.Tuple, ast.List)) and len(g.target.elts) == 2:
+                        # for i, x in enumerate(c): x is any element of c, i its position
+                        el = ast.Tuple(elts=[_call('_index', core.args[0]), _call('_each', core.args[0])], ctx=ast.Load())
+                        tag = canon(core.args[0])
+                    else:
+                        el, tag = _call('_each', it), canon(it)
+                    elems = [(el, (tag,), ())]
+                for el, lp, cs in elems:
+                    env2 = dict(env1)
+                    _bind_element(g.target, el, env2)
+                    conds2 = conds + cs
+                    keep = True
+                    for c in g.ifs:
+                        cv = simp_deep(_subst_names(c, env2))
+                        if isinstance(cv, ast.Constant):
+                            keep = keep and bool(cv.value)
+                        else:
+                            conds2 += ((_call('_filter', cv), True),)
+                    if keep:
+                        nxt.append((env2, loops + lp, conds2))
+                if len(nxt) > 400:
+                    raise _RowForm(e, 'too many combinations in a comprehension')
+            ctxs = nxt
+        return [(_inlined(eng, fr, simp_deep(_subst_names(e.elt, env1))), loops, conds) for env1, loops, conds in ctxs]
+    return None
+
+
+def _sample_records(consts):
+    """phase -> the records a correct reader makes of the three sample rows (SI units, descent ROCD negative)"""
+    out = {}
+    for ph, (_, order) in PTF_BLOCKS.items():
+        out[ph] = []
+        for _text, fl, nums in PTF_SAMPLES:
+            rec = {'fl': fl}
+            for f, x in zip(order, nums[ph]):
+                q = next(k for k in PTF_UNIT if f.startswith(k))
+                nf = _nf(ast.parse(PTF_UNIT[q], mode='eval').body, consts)
+                fac = float(nf.const()) if nf is not None and not nf.atoms() else 1.0
+                rec[f] = float(x) * fac * (-1.0 if ph == 'descent' and q == 'rocd' else 1.0)
+            out[ph].append(rec)
+    return out
 
 
 def _rule_ptf_load(ctx, pt, ptf_cls, phase_of, consts):
